@@ -28,14 +28,16 @@ type Case struct {
 }
 
 var profiles = map[string]world.GenOpts{
-	"np":        {MaxNS: 3, MaxWl: 4, MaxNP: 4, KindsFree: true},
-	"np-out":    {MaxNS: 3, MaxWl: 4, MaxNP: 4, KindsFree: true, HasOut: true},
-	"np-big":    {M: 9, NAddr: 16, MaxNS: 4, MaxWl: 7, MaxNP: 6, KindsFree: true, HasOut: true},
-	"np-named":  {MaxNS: 2, MaxWl: 3, MaxNP: 3, NamedIP: true},
-	"admin":     {MaxNS: 3, MaxWl: 4, MaxNP: 3, MaxANP: 3, BANP: true, KindsFree: true},
-	"admin-big": {M: 7, NAddr: 8, MaxNS: 4, MaxWl: 6, MaxNP: 4, MaxANP: 4, BANP: true, KindsFree: true, HasOut: true},
-	"np-shared": {MaxNS: 3, MaxWl: 5, MaxNP: 3, KindsFree: true, Shared: true},
-	"pods":      {MaxNS: 3, MaxWl: 4, MaxNP: 3, MaxANP: 2, BANP: true, OnlyPods: true},
+	"np":         {MaxNS: 3, MaxWl: 4, MaxNP: 4, KindsFree: true},
+	"np-out":     {MaxNS: 3, MaxWl: 4, MaxNP: 4, KindsFree: true, HasOut: true},
+	"np-big":     {M: 9, NAddr: 16, MaxNS: 4, MaxWl: 7, MaxNP: 6, KindsFree: true, HasOut: true},
+	"np-named":   {MaxNS: 2, MaxWl: 3, MaxNP: 3, NamedIP: true},
+	"admin":      {MaxNS: 3, MaxWl: 4, MaxNP: 3, MaxANP: 3, BANP: true, KindsFree: true},
+	"admin-big":  {M: 7, NAddr: 8, MaxNS: 4, MaxWl: 6, MaxNP: 4, MaxANP: 4, BANP: true, KindsFree: true, HasOut: true},
+	"np-shared":  {MaxNS: 3, MaxWl: 5, MaxNP: 3, KindsFree: true, Shared: true},
+	"np-collide": {MaxNS: 2, MaxWl: 3, MaxNP: 2, KindsFree: true, Collide: true},
+	"np-expo":    {MaxNS: 3, MaxWl: 4, MaxNP: 4, KindsFree: true, Exposure: true},
+	"pods":       {MaxNS: 3, MaxWl: 4, MaxNP: 3, MaxANP: 2, BANP: true, OnlyPods: true},
 }
 
 type emitter struct {
